@@ -314,6 +314,7 @@ package encoding
 //@   loop 1 invariant rangeindex >= -1
 //@   loop 1 invariant rangeindex < len(parts) - 1
 //@   loop 1 invariant forall(j, 1, rangeindex + 2, splitAt(tag, ",", j) != "omitempty")
+//@   loop 1 alt invariant k >= 1 && forall(j, 1, k, splitAt(tag, ",", j) != "omitempty")
 //@   loop 2 invariant rangeindex >= -1
 //@   loop 2 invariant rangeindex < len(embeds)
 //@   loop 2 invariant embedsOK(embeds)
@@ -352,6 +353,7 @@ package encoding
 //@   loop 1 invariant rangeindex >= -1
 //@   loop 1 invariant rangeindex < len(parts) - 1
 //@   loop 1 invariant forall(j, 1, rangeindex + 2, splitAt(tag, ",", j) != "omitempty")
+//@   loop 1 alt invariant k >= 1 && forall(j, 1, k, splitAt(tag, ",", j) != "omitempty")
 //@   loop 2 invariant rangeindex >= -1
 //@   loop 2 invariant rangeindex < len(embeds)
 //@   loop 2 invariant embedsOK(embeds)
@@ -391,6 +393,7 @@ package encoding
 //@   loop 1 invariant rangeindex >= -1
 //@   loop 1 invariant rangeindex < len(parts) - 1
 //@   loop 1 invariant forall(j, 1, rangeindex + 2, splitAt(tag, ",", j) != "omitempty")
+//@   loop 1 alt invariant k >= 1 && forall(j, 1, k, splitAt(tag, ",", j) != "omitempty")
 //@   loop 2 invariant rangeindex >= -1
 //@   loop 2 invariant rangeindex < len(embeds)
 //@   loop 2 invariant embedsOK(embeds)
@@ -426,6 +429,7 @@ package encoding
 //@   loop 1 invariant rangeindex >= -1
 //@   loop 1 invariant rangeindex < len(parts) - 1
 //@   loop 1 invariant forall(j, 1, rangeindex + 2, splitAt(tag, ",", j) != "omitempty")
+//@   loop 1 alt invariant k >= 1 && forall(j, 1, k, splitAt(tag, ",", j) != "omitempty")
 //@   loop 2 invariant rangeindex >= -1
 //@   loop 2 invariant rangeindex < len(embeds)
 //@   loop 2 invariant embedsOK(embeds)
@@ -473,7 +477,7 @@ package encoding
 //@   ensures[err] ret1 != nil ==> ret0 == nil
 //@   modifies nothing
 
-//@ bounded[C15,C09] reflect-cbor : 29 values over 7 struct shapes (flat / one / two levels of embedding / embedded interface holding a struct or a pointer / embedded named scalar and slice types with their own tags / an outer field re-declaring an optional key of the embedded struct), every subset of 3 optional fields, synthetic structs of 0,1,23,24,25,255,256,257 fields; thorough tier: synthetic structs of every field count 0..300 and 65535, 65536, 65537 :: boundedReflectCBOR()
-//@ bounded[C15,C09,C12] reflect-json : the same 29 values over 7 struct shapes, JSON side :: boundedReflectJSON()
+//@ bounded[C15,C09] reflect-cbor : 31 values over 8 struct shapes (flat / one / two levels of embedding / embedded interface holding a struct or a pointer / embedded named scalar and slice types with their own tags / an outer field re-declaring an optional key of the embedded struct / tags with omitempty directly after the key, options in another order, an unknown option before omitempty, a JSON member name that needs escaping, the name - followed by options, with the number of entries checked), every subset of 3 optional fields, synthetic structs of 0,1,23,24,25,255,256,257 fields; thorough tier: synthetic structs of every field count 0..300 and 65535, 65536, 65537 :: boundedReflectCBOR()
+//@ bounded[C15,C09,C12] reflect-json : the same 31 values over 8 struct shapes, JSON side :: boundedReflectJSON()
 //@ bounded[C15] strict-omitempty : one flat struct whose omitempty byte slice, string slice and map are empty but not nil, both serialisations, against the plain marshallers; one struct whose embedded interface holds a struct by value, serialised and populated back; one flat struct holding by value a field whose JSON marshaller has a pointer receiver (math/big.Int), against the plain marshaller :: boundedStrictOmitempty()
 //@ bounded[C05] populate-no-panic : every truncation of 31 CBOR and 31 JSON seed documents, every value of each of the first 6 bytes of each CBOR seed; thorough tier: every value of every byte of each CBOR seed :: boundedPopulateNoPanic()
